@@ -124,6 +124,16 @@ func run(k kase) (o obs) {
 	return
 }
 
+// shortOf returns the short name the code's table maps to uri.
+func shortOf(uri string) string {
+	for k, v := range ua.SecurityPolicyURIs {
+		if v == uri {
+			return k
+		}
+	}
+	return ""
+}
+
 func gen(seed uint64, n int) []kase {
 	r := rng.New(seed)
 	var shorts, uris []string
@@ -175,6 +185,24 @@ func gen(seed uint64, n int) []kase {
 	out = append(out, kase{Kind: "empty", Policy: "", Mode: 0}, kase{Kind: "empty", Policy: hx("None"), Mode: 1})
 	out = append(out, kase{Kind: "nil1", Eps: []*ep{nil}}, kase{Kind: "nil1", Eps: []*ep{nil}, Mode: 1},
 		kase{Kind: "nil2", Eps: []*ep{{U: hx(ua.SecurityPolicyURINone), M: 1, L: 0}, nil}})
+	// systematic: every registered policy queried by short name and by full URI (with and without a mode), against a list
+	// that contains one endpoint per policy
+	var all []*ep
+	for i, u := range uris {
+		all = append(all, &ep{U: hx(u), M: uint32(1 + i%3), L: uint8(10 * i)})
+	}
+	for i, u := range uris {
+		for _, q := range []string{u, shorts[sort.SearchStrings(shorts, shortOf(u))]} {
+			for _, m := range []uint32{0, uint32(1 + i%3)} {
+				cp := make([]*ep, len(all))
+				for j := range all {
+					c := *all[j]
+					cp[j] = &c
+				}
+				out = append(out, kase{Kind: "table", Eps: cp, Policy: hx(q), Mode: m})
+			}
+		}
+	}
 	for len(out) < n {
 		var k kase
 		ln := 0
